@@ -479,7 +479,22 @@ class State:
         ob = self.ex.obligations.get(key)
         if ob is not None and ob.status == "covered":
             return
-        r, _ = self._check(z3.BoolVal(True), self.cfg.cover_timeout_ms or self.cfg.oblig_timeout_ms)
+        r = z3.unknown
+        witness = getattr(self.ex, "cover_witness", None)
+        if witness is not None:
+            # Quantified path conditions: the solver's model finder may give up although the point is reachable.
+            # A contract may describe a WITNESS SCENARIO (extra constraints, e.g. "the maps are empty"): if
+            # pc AND witness is satisfiable then pc is — a sound way to discharge the vacuity guard (it can only
+            # turn `unknown` into `covered`, never hide an unsatisfiable pc). Tried first, with a short budget.
+            try:
+                extra = [V._zb(h) if not isinstance(h, z3.ExprRef) else h for h in (witness(self) or ())]
+            except Exception:  # noqa: BLE001
+                extra = []
+            if extra:
+                r, _ = self._check(z3.And(*extra), min(self.cfg.oblig_timeout_ms, 10000))
+        if r != z3.sat:
+            budget = getattr(self.cfg, "cover_timeout_ms", None) or self.cfg.oblig_timeout_ms
+            r, _ = self._check(z3.BoolVal(True), budget if witness is None else min(budget, 10000))
         if ob is None:
             ob = Obligation(name, "cover")
             self.ex.obligations[key] = ob
